@@ -23,6 +23,9 @@ import (
 //
 //	B:c  Begin(c)      start Execute; it reaches the user function (admitted) or returns (rejected)
 //	E:c  End(c, out)   let the user function return `out`; Execute records, releases and returns
+//	X:c  EndMid(c,out) let the user function return; record() runs up to the clock read inside transitionTo(Open)
+//	                   (driver-side gate in the injected clock: b.mu held, neither openUntil nor the state stored yet)
+//	F:c  Finish(c)     the transition stores openUntil and the state, Execute returns
 //	K:c  Park(c)       (Split only) Execute stops at the hook "breaker.acquire.expired", i.e. inside
 //	                   tryAcquire between the failed test `clock() < openUntil` and toHalfOpen();
 //	                   the next B:c resumes it (toHalfOpen + select)
@@ -74,6 +77,24 @@ type inflight struct {
 	res    callResult
 	fb     bool
 	parked bool // stopped at hookExpired
+	// the opening transition in two steps (X: / F: operations): the driver's clock parks the thread at the second clock
+	// read of its End segment, which is the one inside transitionTo(Open) (the first is record()'s own)
+	clockCalls int
+	mid        bool // parked at that clock read: b.mu is held by this thread
+	midpark    bool // this caller reached hookExpired while another one was in the middle of a transition
+}
+
+// windowLocked reports whether the rolling window's mutex is held (then the clock read belongs to buckets.reset() or
+// snapshot(), not to transitionTo(Open), and parking there would block every observation).
+func windowLocked(br *breaker.CircuitBreaker) bool {
+	ch := make(chan struct{})
+	go func() { br.VerifShape(); close(ch) }()
+	select {
+	case <-ch:
+		return false
+	case <-time.After(200 * time.Millisecond):
+		return true
+	}
 }
 
 func classify(err error) (class, est string) {
@@ -158,7 +179,7 @@ func runBreaker(bfile, tfile, cfgJSON string) {
 	if err != nil {
 		die(err)
 	}
-	skipped, predMismatch, stales, parks := 0, 0, 0, 0
+	skipped, predMismatch, stales, parks, mids := 0, 0, 0, 0, 0
 	rnd := uint64(cfg.Seed)*0x9E3779B97F4A7C15 + 0x1234567
 	next := func() uint64 { // splitmix64
 		rnd += 0x9E3779B97F4A7C15
@@ -170,8 +191,20 @@ func runBreaker(bfile, tfile, cfgJSON string) {
 	ncall := 0
 	for _, beh := range behaviours {
 		var now atomic.Int64 // ticks
-		clock := func() time.Time { return t0.Add(time.Duration(now.Load() * tick)) }
-		br := breaker.NewCircuitBreaker(
+		var br *breaker.CircuitBreaker
+		var sc *sched.Sched
+		var armed *inflight // the thread being stepped through an X: operation
+		clock := func() time.Time {
+			if a := armed; a != nil {
+				a.clockCalls++
+				if a.clockCalls == 2 && !windowLocked(br) {
+					armed = nil
+					sc.Yield("clock", 0, 0)
+				}
+			}
+			return t0.Add(time.Duration(now.Load() * tick))
+		}
+		br = breaker.NewCircuitBreaker(
 			breaker.WithClock(clock),
 			breaker.WithWindow(time.Duration(int64(cfg.NB*cfg.BD)*tick), cfg.NB),
 			breaker.WithMinRequests(cfg.MinReq),
@@ -179,10 +212,18 @@ func runBreaker(bfile, tfile, cfgJSON string) {
 			breaker.WithOpenTimeout(time.Duration(int64(cfg.OpenTO)*tick)),
 			breaker.WithHalfOpenMaxCalls(cfg.HalfMax),
 		)
-		sc := sched.New()
+		sc = sched.New()
 		sc.Watchdog = 30 * time.Second
 		sc.Control(br)
 		calls := map[string]*inflight{}
+		anyMid := func() bool {
+			for _, fl := range calls {
+				if fl.mid {
+					return true
+				}
+			}
+			return false
+		}
 		w.Raw(map[string]any{"op": "New"})
 
 		emit := func(op, c, out, res string, extra map[string]any) {
@@ -238,6 +279,7 @@ func runBreaker(bfile, tfile, cfgJSON string) {
 				case p.Point == hookExpired:
 					if cfg.Split && !fl.parked {
 						fl.parked = true
+						fl.midpark = anyMid()
 						return "parked"
 					}
 					p, err = sc.Step(fl.name) // one segment: step through the hook at once
@@ -314,6 +356,9 @@ func runBreaker(bfile, tfile, cfgJSON string) {
 			// "open and expired" (it is a no-op when the breaker is half-open already)
 			sh := br.VerifShape()
 			stale := sh.State != breaker.HalfOpen && !(sh.State == breaker.Open && clock().UnixNano() >= sh.OpenUntil)
+			if fl.midpark {
+				stale = false // its test raced with a transition in progress: not the situation the known finding describes
+			}
 			if stale {
 				stales++
 			}
@@ -331,6 +376,15 @@ func runBreaker(bfile, tfile, cfgJSON string) {
 			}
 			emit("End", c, out, "", resultFields(fl))
 		}
+		finishMid := func(c string) {
+			fl := calls[c]
+			delete(calls, c)
+			p, err := sc.Step(fl.name)
+			if err != nil || !p.Done {
+				die("Execute did not return after the transition was released:", err, p.String())
+			}
+			emit("EndFin", c, fl.out, "", resultFields(fl))
+		}
 
 		for _, s := range beh {
 			f := strings.Split(s, ":")
@@ -342,7 +396,7 @@ func runBreaker(bfile, tfile, cfgJSON string) {
 			case "B", "P", "K":
 				c := f[1]
 				if fl := calls[c]; fl != nil {
-					if fl.parked && f[0] == "B" {
+					if fl.parked && f[0] == "B" && !anyMid() { // toHalfOpen needs b.mu
 						fl.parked = false
 						resume(c, predicted)
 					} else {
@@ -364,7 +418,7 @@ func runBreaker(bfile, tfile, cfgJSON string) {
 					if f[0] != "K" {
 						predMismatch++
 					}
-					emit("Park", c, "", "", nil)
+					emit("Park", c, "", "", map[string]any{"midpark": fl.midpark})
 				default:
 					if f[0] == "K" {
 						predMismatch++
@@ -373,11 +427,42 @@ func runBreaker(bfile, tfile, cfgJSON string) {
 				}
 			case "E":
 				c := f[1]
-				if calls[c] == nil || calls[c].parked {
+				if calls[c] == nil || calls[c].parked || calls[c].mid {
 					skipped++
 					continue
 				}
 				finish(c, f[2])
+			case "X":
+				c := f[1]
+				fl := calls[c]
+				if fl == nil || fl.parked || fl.mid || anyMid() {
+					skipped++
+					continue
+				}
+				fl.out, fl.clockCalls, armed = f[2], 0, fl
+				p, err := sc.Step(fl.name)
+				armed = nil
+				switch {
+				case err != nil:
+					die("scheduler:", err)
+				case p.Done: // no second clock read: the real record() did not start an opening transition
+					predMismatch++
+					delete(calls, c)
+					emit("End", c, fl.out, "", resultFields(fl))
+				case p.Point == "clock":
+					fl.mid = true
+					mids++
+					emit("EndMid", c, fl.out, "", nil)
+				default:
+					die("thread parked at an unexpected point", p.String())
+				}
+			case "F":
+				c := f[1]
+				if calls[c] == nil || !calls[c].mid {
+					skipped++
+					continue
+				}
+				finishMid(c)
 			case "T":
 				now.Add(1)
 				emit("Tick", "", "", "", nil)
@@ -394,7 +479,12 @@ func runBreaker(bfile, tfile, cfgJSON string) {
 		}
 		sort.Strings(rest)
 		for _, c := range rest {
-			if calls[c].parked {
+			if calls[c].mid {
+				finishMid(c)
+			}
+		}
+		for _, c := range rest {
+			if calls[c] != nil && calls[c].parked {
 				calls[c].parked = false
 				resume(c, "")
 			}
@@ -411,6 +501,6 @@ func runBreaker(bfile, tfile, cfgJSON string) {
 	if err := w.Close(); err != nil {
 		die(err)
 	}
-	fmt.Printf("{\"behaviours\":%d,\"events\":%d,\"skipped\":%d,\"pred_mismatch\":%d,\"parks\":%d,\"stale_resumes\":%d}\n",
-		len(behaviours), n, skipped, predMismatch, parks, stales)
+	fmt.Printf("{\"behaviours\":%d,\"events\":%d,\"skipped\":%d,\"pred_mismatch\":%d,\"parks\":%d,\"stale_resumes\":%d,\"mid_transitions\":%d}\n",
+		len(behaviours), n, skipped, predMismatch, parks, stales, mids)
 }
